@@ -19,6 +19,7 @@ type Clause struct {
 	Line  int
 	File  string
 	Thor  bool // thorough tier only
+	Mode  string // "int": discharge in the integer encoding first
 }
 
 type LoopSpec struct {
@@ -27,6 +28,13 @@ type LoopSpec struct {
 	Decreases  *Clause
 	Frame      []*Clause // loop n preserves <heap-facts> (quantified frame facts, proved at back edge)
 	Unroll     int
+	Fills      []*FillSpec // loop n fills X[lo:hi] with V : exact heap summary of a memset-style loop
+}
+
+type FillSpec struct {
+	Slice, Lo, Hi, Val CExpr
+	Src                string
+	Thor               bool
 }
 
 type PureFn struct {
@@ -139,7 +147,11 @@ func (sp *Specs) parseFile(path string, data []byte, pkgPath string) error {
 		}
 		if strings.HasPrefix(src, "thorough ") {
 			c.Thor = true
-			src = strings.TrimPrefix(src, "thorough ")
+			src = strings.TrimSpace(strings.TrimPrefix(src, "thorough "))
+		}
+		if strings.HasPrefix(src, "int: ") {
+			c.Mode = "int"
+			src = strings.TrimSpace(strings.TrimPrefix(src, "int: "))
 		}
 		c.Src = src
 		e, err := parseCExpr(src)
@@ -283,6 +295,31 @@ func (sp *Specs) parseFile(path string, data []byte, pkgPath string) error {
 				src := strings.TrimSpace(strings.SplitN(l, w[2], 2)[1])
 				if w[2] == "unroll" {
 					ls.Unroll, _ = strconv.Atoi(src)
+					break
+				}
+				if w[2] == "fills" {
+					thorFill := false
+					if strings.HasPrefix(src, "thorough ") {
+						thorFill = true
+						src = strings.TrimPrefix(src, "thorough ")
+					}
+					parts := strings.SplitN(src, " with ", 2)
+					if len(parts) != 2 {
+						return fmt.Errorf("%s:%d: bad fills clause", path, line)
+					}
+					se, err := parseCExpr(strings.TrimSpace(parts[0]))
+					if err != nil {
+						return fmt.Errorf("%s:%d: %v", path, line, err)
+					}
+					sl, ok := se.(*CSlice)
+					if !ok || sl.Lo == nil || sl.Hi == nil {
+						return fmt.Errorf("%s:%d: fills needs X[lo:hi]", path, line)
+					}
+					ve, err := parseCExpr(strings.TrimSpace(parts[1]))
+					if err != nil {
+						return fmt.Errorf("%s:%d: %v", path, line, err)
+					}
+					ls.Fills = append(ls.Fills, &FillSpec{Slice: sl.X, Lo: sl.Lo, Hi: sl.Hi, Val: ve, Src: src, Thor: thorFill})
 					break
 				}
 				c, err := mkClause(src, line)
